@@ -60,6 +60,11 @@ def _tsfr(n=2):
     return TimeSeriesForestRegressor(n_estimators=n, random_state=1)
 
 
+def _first_column(X):
+    """A callable column specifier (resolved against the data at fit time)."""
+    return [0]
+
+
 def required_args(name, rng):
     """Required constructor arguments (and the composite attribute holding named parts)."""
     from sklearn.linear_model import LinearRegression
@@ -71,6 +76,11 @@ def required_args(name, rng):
         ests = [("a", _tsf(2), [0]), ("b", _tsf(3, 2), [0])]
         if r < 0.4:
             ests.insert(rng.randrange(3), ("c", "drop", [0]))
+        if rng.random() < 0.35:
+            # a callable column specifier for one component
+            j = rng.randrange(len(ests))
+            if ests[j][1] != "drop":
+                ests[j] = (ests[j][0], ests[j][1], _first_column)
         if rng.random() < 0.4:
             # a plain scikit-learn estimator as a component (a pipeline that tabularises first)
             from sklearn.pipeline import make_pipeline
@@ -665,6 +675,21 @@ def execute(prop, scen):
                 res.probe("clone_of_fitted")
                 if getattr(c2, "is_fitted", False):
                     v("clone_is_fitted", "a clone of a fitted estimator reports is_fitted True", fitted=True)
+                # a method the fitted estimator offers is also there before fit (where it raises
+                # NotFittedError): one that only appears with fit fails with AttributeError, an
+                # unrelated error, on the unfitted clone
+                for m_ in APPLY_METHODS:
+                    try:
+                        has_f, has_c = hasattr(est, m_), hasattr(c2, m_)
+                    except Exception:
+                        continue
+                    if has_f and not has_c:
+                        v("unfitted_wrong_error", "%s exists on the fitted estimator but not on its "
+                          "unfitted clone: calling it before fit raises AttributeError instead of "
+                          "NotFittedError" % m_, method=m_, exc="AttributeError", cloned=True)
+                        break
+                if res.violations:
+                    break
                 check_not_fitted(v, res, c2, kind, data, NotFittedError, cloned=True)
             elif op == "update_fitted":
                 # apply-type / update calls on the fitted object never touch constructor parameters
@@ -807,6 +832,17 @@ def execute(prop, scen):
                     v("fit_not_self", "fit returned %s, not the estimator itself" % type(out).__name__)
                 if not getattr(est, "is_fitted", False):
                     v("fit_not_flagged", "is_fitted is False after fit")
+                try:
+                    fresh_ = clone(est)
+                    for m_ in APPLY_METHODS:
+                        if hasattr(est, m_) and not hasattr(fresh_, m_):
+                            v("unfitted_wrong_error", "%s exists on the fitted estimator but not on "
+                              "an unfitted clone: calling it before fit raises AttributeError "
+                              "instead of NotFittedError" % m_, method=m_, exc="AttributeError",
+                              cloned=True)
+                            break
+                except Exception:
+                    pass
                 res.probe("fit_leaves_params_checked")
                 after = est.get_params(deep=False)
                 for k_ in before:
